@@ -11,20 +11,24 @@ CUTS = [r'^_ZNSt7__cxx119to_stringEm$', r'^_ZStplIcSt11char_traitsIcESaIcEENSt7_
         r'^_ZNSt7__cxx1112basic_stringIcSt11char_traitsIcESaIcEEC2IS3_EEPKcRKS3_$', r'^_ZN5phosg13string_printfB5cxx11EPKcz$']
 UNITS = {'json': dict(wrap='wrap.cc', shim=True, new_block=96, cxxflags=['-DVERIF_UMAP_CAP=2'], cuts=CUTS, ir2c_flags=['--union-fp-bytes'])}
 
-BOUNDS = ('skip_whitespace_and_comments: every input of length 0..6 (quick) / 0..8 (thorough) over all 256 byte values, both modes; '
+BOUNDS = ('JSON::parse on templated documents (h_tmpl.c): concrete skeleton + trailing symbolic holes of one lexical class each (WS, digit, letter), parser mode a concrete cell: '
+          '19 templates x 2 modes (7 x 2 in the quick tier), every value of the holes; '
+          'skip_whitespace_and_comments: every input of length 0..6 (quick) / 0..8 (thorough) over all 256 byte values, both modes; '
           'StringReader get_s8 / pget_s8 / eof / skip_if: buffers of 0..6 bytes, every start offset 0..LEN, pget offsets 0..LEN+1, '
           'literal lengths 1, 4, 5 (the lengths JSON::parse uses) with symbolic literal bytes; value_for_hex_char: all 256 bytes. '
           'Loops unwound to LEN+3 with unwinding assertions.')
-STUBS = ['message builders cut to empty strings (json_cuts.h): phosg::string_printf (only use reached: the text of the out_of_range thrown by value_for_hex_char); '
-         'std::to_string(unsigned long), operator+(const char*, std::string&&), std::string(const char*) (only reached by the whole-parse probes)',
-         'engine/shim/unordered_map (fixed capacity 2) replaces std::unordered_map in the translated TU; not reached by the tiered queries']
-OUTSIDE = ['JSON::parse as a whole (all three entry points): totality / exception types on arbitrary bytes, acceptance and values of standard documents in '
+STUBS = ['message builders cut to empty strings (json_cuts.h): phosg::string_printf (text of the out_of_range thrown by value_for_hex_char); '
+         'std::to_string(unsigned long), operator+(const char*, std::string&&), std::string(const char*) (texts of the parse_errors thrown by JSON::parse)',
+         'engine/shim/unordered_map (fixed capacity 2) replaces std::unordered_map in the translated TU (empty dictionaries in the template queries)',
+         'ir2c --union-fp-bytes: double members of std::variant storage emitted as byte arrays (CBMC loses pointers stored in double-typed fields)']
+OUTSIDE = ['JSON::parse on inputs that are not one of the templates: totality / exception types on arbitrary bytes, acceptance and values of standard documents in '
            'both modes, strict-mode rejection of the four extensions, extent consumed by the reader entry point, trailing-garbage rejection, nesting up to 500. '
            'Measured (16 cores, cbmc 6.11, message builders cut, unordered_map shim, recursion bounded by the number of brackets): fully symbolic input of '
            'LENGTH 1 (2 modes): symbolic execution 7-8 min, then the SAT back end exceeds 10 GB during propositional reduction (also with --slice-formula); '
            'length 2: 13-17 min symbolic execution, >10 GB; "[" + one symbolic byte: no verdict in 1500 s. Reproduce with C05_PROBES=1 (queries probe_*).',
-           'therefore NOT decided here, although seen by reading and reproduced natively (NOTES.md): strict mode rejects [] and {}; numerals with an exponent but '
-           'no fraction are ints (5e-1 -> 0, 1e+20 -> overflowed int); a non-string dictionary key escapes as JSON::type_error; signed overflow on INT64_MIN',
+           'a symbolic mode flag ([] with symbolic strict: > 28 GB) or a symbolic byte in front of concrete bytes ([WS] : no verdict in 900 s) is equally out of reach, hence '
+           'trailing holes and a concrete mode cell; templates dropped for memory/time: dictionaries with members, hex digits, positive exponents, holes inside strings, truncations',
+           'signed overflow on INT64_MIN in the parser (JSON.cc:118,161): invisible to the solver (generated C is unsigned arithmetic); reproduced natively with UBSan; patch in fixes-unconfirmed/',
            'offsets near 2^64 in StringReader::pget (offset+size wraps): not reachable from JSON::parse (it only forms where()+1 <= size); subject of C02']
 ASSUMPTIONS = ['the kernels are the only routes by which JSON::parse touches its input: StringReader::get_s8/pget_s8/eof/skip_if/go/where (by reading JSON.cc:19-258)']
 
